@@ -133,6 +133,8 @@ pub(crate) struct ForwardRef {
     spec: XFuncSpec,
     cell_idx: usize,
     pub(crate) fulfilled: bool,
+    /// the forward requirements of the function that fulfilled this reference
+    fulfillment_requirements: Vec<ForwardRefRequirement>,
 }
 
 pub struct CompilationScope<'p, W, R, T> {
@@ -271,8 +273,9 @@ impl<'p, W, R, T> CompilationScope<'p, W, R, T> {
             .iter_mut()
             .find(|f| !f.fulfilled && f.name == name && f.spec == spec)
         {
-            // todo check what happens if the fulfillment has a reference as well
+            // whoever needs this reference also needs whatever its implementation is still waiting for
             fref.fulfilled = true;
+            fref.fulfillment_requirements = forward_requirements;
             fref.cell_idx
         } else {
             let cell_idx = self.cells.ipush(Cell::Variable {
@@ -509,6 +512,7 @@ impl<'p, W, R, T> CompilationScope<'p, W, R, T> {
             spec: spec.clone(),
             cell_idx,
             fulfilled: false,
+            fulfillment_requirements: Default::default(),
         };
         self.forwards.push(fref);
         self.functions
@@ -527,7 +531,12 @@ impl<'p, W, R, T> CompilationScope<'p, W, R, T> {
         &mut self,
         refs: impl IntoIterator<Item = ForwardRefRequirement>,
     ) -> Result<(), CompilationError> {
-        for freq in refs {
+        let mut pending: Vec<_> = refs.into_iter().collect();
+        let mut seen = HashSet::new();
+        while let Some(freq) = pending.pop() {
+            if !seen.insert(freq) {
+                continue;
+            }
             let fref = &self.forward_ref(&freq);
             if !fref.fulfilled {
                 if freq.ancestor_height == self.height {
@@ -538,6 +547,8 @@ impl<'p, W, R, T> CompilationScope<'p, W, R, T> {
                 } else {
                     self.forward_requirements.insert(freq);
                 }
+            } else {
+                pending.extend(fref.fulfillment_requirements.iter().copied());
             }
         }
         Ok(())
